@@ -352,9 +352,13 @@ class Ctx:
         res = []
         for o in out:
             try:
-                res.append(json.loads(o))
+                r = json.loads(o)
             except Exception:
-                res.append({"unparsable": o[:500]})
+                r = {"unparsable": o[:500]}
+            if isinstance(r, dict) and r.get("inconclusive"):
+                self.bump("model_inconclusive(oracle table incomplete)")
+            res.append(r)
+        self.bump("model_cases", len(res))
         return res
 
     # -- finish --------------------------------------------------------------
